@@ -140,7 +140,34 @@ const char *kw(const VhLine *l, const char *key) {
     }
     return NULL;
 }
+/* `place k` (k = 1..16): the copies handed to the decoders start k bytes before a page boundary (inside a
+ * read/write mapping of several pages), so an encoding of more than k bytes straddles the boundary: code that
+ * treats "the rest of this page" specially (wide loads with a page-end fallback) takes its rare path.
+ * `place 0` restores exact-size heap copies (the default; those are what ASan watches). */
+int vh_place = 0;
+uint8_t *vh_place_lo = NULL, *vh_place_hi = NULL;
+#include <sys/mman.h>
 void *exact_copy(const void *p, size_t n) {
+    if (vh_place > 0 && n > 0 && n <= 4096) {
+        static size_t slot = 0;
+        if (!vh_place_lo) {
+            size_t bytes = 64 * 4096;
+            vh_place_lo = mmap(NULL, bytes, PROT_READ | PROT_WRITE, MAP_PRIVATE | MAP_ANONYMOUS, -1, 0);
+            if (vh_place_lo == MAP_FAILED) {
+                vh_place_lo = NULL;
+            } else {
+                vh_place_hi = vh_place_lo + bytes;
+            }
+        }
+        if (vh_place_lo) {
+            /* slots of 4 pages, used round-robin (a few copies are alive at the same time) */
+            uint8_t *base = vh_place_lo + (slot++ % 16) * 4 * 4096;
+            uint8_t *q = base + 4096 - (size_t)vh_place;
+            memset(base, 0xEE, 3 * 4096);
+            memcpy(q, p, n);
+            return q;
+        }
+    }
     void *q = malloc(n);
     if (n) {
         memcpy(q, p, n);
@@ -196,6 +223,11 @@ int main(int argc, char **argv) {
         mbuf[0] = 0;
         if (l.n == 0 || l.tok[0][0] == '#') {
             fputs("#\n", stdout);
+            continue;
+        }
+        if (strcmp(l.tok[0], "place") == 0) {
+            vh_place = (int)(p_u64(arg(&l, 1)) & 31);
+            fputs("ok\n", stdout);
             continue;
         }
         if (strcmp(l.tok[0], "align") == 0) {
